@@ -175,6 +175,7 @@ type RequestStream struct {
 	sentRequest   bool
 	requestedGzip bool
 	isConnect     bool
+	isHead        bool
 }
 
 func newRequestStream(
@@ -301,6 +302,7 @@ func (s *RequestStream) sendRequestHeader(req *http.Request) error {
 		s.requestedGzip = true
 	}
 	s.isConnect = req.Method == http.MethodConnect
+	s.isHead = req.Method == http.MethodHead
 	s.sentRequest = true
 	return s.requestWriter.WriteRequestHeader(s.str.datagramStream, req, s.requestedGzip, s.str.StreamID(), s.str.qlogger)
 }
@@ -368,11 +370,16 @@ func (s *RequestStream) ReadResponse() (*http.Response, error) {
 
 	// Check that the server doesn't send more data in DATA frames than indicated by the Content-Length header (if set).
 	// See section 4.1.2 of RFC 9114.
-	respBody := newResponseBody(s.str, res.ContentLength, s.reqDone)
-
 	// Rules for when to set Content-Length are defined in https://tools.ietf.org/html/rfc7230#section-3.3.2.
 	isInformational := res.StatusCode >= 100 && res.StatusCode < 200
 	isNoContent := res.StatusCode == http.StatusNoContent
+	// A response to a HEAD request and a 304 response may carry a Content-Length although they have no content.
+	expectedBodyLength := res.ContentLength
+	if s.isHead || isInformational || isNoContent || res.StatusCode == http.StatusNotModified {
+		expectedBodyLength = min(expectedBodyLength, 0)
+	}
+	respBody := newResponseBody(s.str, expectedBodyLength, s.reqDone)
+
 	isSuccessfulConnect := s.isConnect && res.StatusCode >= 200 && res.StatusCode < 300
 	if (isInformational || isNoContent || isSuccessfulConnect) && res.ContentLength == -1 {
 		res.ContentLength = 0
